@@ -36,6 +36,11 @@ fn main() {
     c10::ask(&args[2..]);
     return;
   }
+  if args.len() >= 2 && args[1] == "c19warm" {
+    silence_panics();
+    c19::warm(&args[2..]);
+    return;
+  }
   if args.len() < 3 || args[1] != "trace" {
     eprintln!("usage: tvh trace <prop> --tier quick|thorough --seed N --out DIR [--cases FILE] [--threads N]");
     std::process::exit(2);
